@@ -79,6 +79,7 @@ def dispatch (st : DState) (toks : List String) : DState × String :=
   | ["S", "static-same"] => (st, "same")
   | ["S", "atomic"] => (st, "ok")
   | ["S", "atomic-accounts"] => (st, "ok")
+  | ["S", "atomic-nonces"] => (st, "ok")
   | ["S", "conc-same"] => (st, "same")
   | ["S", "cancel-safe"] => (st, "ok")
   -- C01/C02/C18 specification: the fork behaves exactly like go-ethereum v1.12.0 on standard programs
@@ -92,6 +93,7 @@ def dispatch (st : DState) (toks : List String) : DState × String :=
   | ["S", "ctflatown"] => (st, "ok")
   | ["S", "attributed"] => (st, "ok")
   | ["S", "jran"] => (st, "ok")
+  | ["S", "halt-no-data"] => (st, "ok")
   | ["S", "jattr"] => (st, "ok")
   | ["S", "det-interleaved"] => (st, "same")
   | ["S", "wf-any-history"] => (st, "ok")
